@@ -32,8 +32,10 @@ package cert
 //@   ghost ensures result == nil ==> tcAccepted(c, tc)
 //@   modifies alloc
 
-//@ func (*Authority).VerifyPartialCert property C02,C10,C20
+//@ pure func pcAccepted(c *Authority, pc hotstuff.PartialCert) bool
+//@ func (*Authority).VerifyPartialCert property C02,C10,C20,C09
 //@   requires awf(c)
+//@   ghost ensures result == nil ==> pcAccepted(c, cert)
 //@   ensures [content] result == nil ==> cert.signature != nil && has(c.blockchain.blocks, cert.blockHash) && (forall id hotstuff.ID :: hotstuff.setmem(hotstuff.parts(cert.signature), id) ==> crypto.sigvalid(c.Base, cert.signature, id, hotstuff.blockcontent(c.blockchain.blocks[cert.blockHash])))
 //@   ensures [inv] blockchain.binv(c.blockchain) && blockchain.bmaps(c.blockchain)
 //@   ensures [stores] blockchain.entrieskept()
